@@ -72,7 +72,34 @@ func c12Families() []gram.Named {
 		{"one-of-two-alternatives-unproductive", gram.Parse("S", abc, "S: A | TB ; A: A TA")},
 		{"default-start-symbol", gram.Parse("", abc, "start: TA S ; S: TB | S TB")},
 		{"default-start-symbol-recursive", gram.Parse("", abc, "start: start TA | TB")},
+		// %prec naming something that is declared nowhere is a use of an undefined symbol; naming a token
+		// without precedence, or a character literal that occurs nowhere else, is not
+		{"prec-names-an-undeclared-name", func() *gram.Spec {
+			s := gram.Parse("E", []string{"TA"}, "E: E '-' E | '-' E %prec UMINUS | TA")
+			s.Prec = []gram.PrecLevel{{Assoc: "left", Toks: []string{"'-'"}}}
+			return s
+		}()},
+		{"prec-names-a-token-without-precedence", func() *gram.Spec {
+			s := gram.Parse("E", []string{"TA", "TB"}, "E: E '-' E | '-' E %prec TB | TA")
+			s.Prec = []gram.PrecLevel{{Assoc: "left", Toks: []string{"'-'"}}}
+			return s
+		}()},
+		{"prec-names-a-literal-used-nowhere-else", func() *gram.Spec {
+			s := gram.Parse("E", []string{"TA"}, "E: E '-' E | '-' E %prec '!' | TA")
+			s.Prec = []gram.PrecLevel{{Assoc: "left", Toks: []string{"'-'"}}}
+			return s
+		}()},
 		{"all-terminal-chain", gram.Parse("S", abc, "S: A TA ; A: B TB ; B: TC")},
+		// a token declared first without a number and numbered by a later line (the idiom of the shipped
+		// examples), next to several automatically numbered tokens: the automatic numbers must keep clear of it
+		{"numbered-by-a-later-line", func() *gram.Spec {
+			s := gram.Parse("S", nil, "S: TN TA TB TC TD TE")
+			s.Union = " v int "
+			s.HasUnion = true
+			s.Tokens = []gram.TokDecl{{Name: "TN", Tag: "v"}, {Name: "TA"}, {Name: "TB"}, {Name: "TC"}, {Name: "TD"}, {Name: "TE"}}
+			s.LateTokens = []gram.TokDecl{{Name: "TN", Num: 5}}
+			return s
+		}()},
 		// well-formed grammars with large automata below the limit of 2000 states
 		{"states-1557", gram.Trie([]string{"TA", "TB", "TC", "TD", "TE", "TF"}, 4)},
 		{"states-1999", c12StatesExactly(1999)},
